@@ -46,6 +46,7 @@ def model_constants(inst):
         "closure": {f: set(c["flat"][f]["closure"]) for f in flats},
         "incompatible": list(getattr(inst, "incompatible", [])),
         "swarm": dict(c["swarm"]), "spawner": dict(c["spawner"]),
+        "neverrun": {t for t in comp if any(x.split(":", 1)[1] == "install" and x.split(":", 1)[0] in c["tests"][t].get("perm", []) for x in c["tests"][t]["sets"])},
         "workers": list(c["workers"]), "unrestricted": [w for w in c["workers"] if w not in c["restricted"]],
         "states": sorted(produced),
     }
@@ -72,6 +73,7 @@ def write_mc(work, name, mc, pools, spec, statuses, maxtries=1, maxconc=1, rerun
         f.write("MCUnrestricted == %s\n" % tla(set(mc["unrestricted"])))
         f.write("MCPrio == %s\n" % fun(mc["tests"], lambda t: str(mc["prio"].get(t, 0))))
         f.write("MCIncompatible == %s\n" % tla(set(mc.get("incompatible", []))))
+        f.write("MCNeverRun == %s\n" % tla(set(mc.get("neverrun", set()))))
         f.write("MCSpawner == %s\nMCSwarm == %s\nMCPoolScope == %s\n" % (fun(ws, lambda w: tla(mc["spawner"].get(w, "")), "w", "MCW"),
                                                                         fun(ws, lambda w: tla(mc["swarm"].get(w, "")), "w", "MCW"), tla(set(poolscope))))
         locs = ["shared"] + ws
@@ -83,7 +85,7 @@ def write_mc(work, name, mc, pools, spec, statuses, maxtries=1, maxconc=1, rerun
         f.write("SPECIFICATION %s\nCONSTANTS\n W <- MCW\n WOrder <- MCWOrder\n Tests <- MCTests\n Root = \"t0\"\n FlatLeaves <- MCFlat\n ObjRoots <- MCObjRoots\n"
                 " Stateful <- MCStateful\n Setup <- MCSetup\n Gets <- MCGets\n Sets <- MCSets\n UnsetSets <- MCUnsetSets\n Removable <- MCRemovable\n"
                 " Closure <- MCClosure\n Unrestricted <- MCUnrestricted\n Incompatible <- MCIncompatible\n InitPools <- MCInitPools\n Statuses <- MCStatuses\n MaxTries = %d\n MaxConc = %d\n"
-                " RerunSet <- MCRerun\n StopSet <- MCStop\n MaxBounce = %d\n Lazy = %s\n DryRun = %s\n Prio <- MCPrio\n UsePrio = %s\n OwnUnexplored = %s\n Spawner <- MCSpawner\n Swarm <- MCSwarm\n PoolScope <- MCPoolScope\n"
+                " RerunSet <- MCRerun\n StopSet <- MCStop\n MaxBounce = %d\n Lazy = %s\n DryRun = %s\n Prio <- MCPrio\n UsePrio = %s\n OwnUnexplored = %s\n Spawner <- MCSpawner\n Swarm <- MCSwarm\n PoolScope <- MCPoolScope\n NeverRun <- MCNeverRun\n"
                 % (spec, maxtries, maxconc, maxbounce, "TRUE" if lazy else "FALSE", "TRUE" if dry else "FALSE", "TRUE" if useprio else "FALSE",
                    "TRUE" if (OWN_UNEXPLORED if ownunexplored is None else ownunexplored) else "FALSE"))
         for inv in invariants:
@@ -186,7 +188,9 @@ def validate_traces(work, inst, results, par=8, timeout=600):
     for i, res in enumerate(results):
         job = res["job"]
         rp = dict(inst.params)
-        rp.update(job.get("run_params", {}))
+        if inst.lazy:
+            # (an eagerly parsed graph was composed before the run: run parameters do not reach its nodes)
+            rp.update(job.get("run_params", {}))
         maxtries = int(float(rp.get("max_tries", 1)))
         name = "MC_T%d" % i
         pool = {k: set(s for s in v if M.producible(s)) for k, v in job.get("store", {}).items()}
